@@ -94,11 +94,6 @@ class LocalQueueCandidates:
             new_track_id = 0
         else:
             new_track_id = max(self.current_tracks) + 1
-            if self.max_tracks is not None and new_track_id > self.max_tracks:  # TODO
-                message = "Exceeding max tracks"
-                logger.error(message)
-                raise Exception(message)
-        self.tracker_queue[new_track_id] = deque(maxlen=self.window_size)
         return new_track_id
 
     def add_new_tracks(
@@ -109,10 +104,14 @@ class LocalQueueCandidates:
         for t in current_instances:
             if t.instance_score > self.instance_score_threshold:
                 new_track_id = self.get_new_track_id()
-                t.track_id = new_track_id
-                t.tracking_score = 1.0
-                self.current_tracks.append(new_track_id)
-                self.tracker_queue[new_track_id].append(t)
+                # At most `max_tracks` tracks are created; a surplus detection keeps
+                # `track_id = None` (it is returned without a track).
+                if self.max_tracks is None or new_track_id < self.max_tracks:
+                    t.track_id = new_track_id
+                    t.tracking_score = 1.0
+                    self.current_tracks.append(new_track_id)
+                    self.tracker_queue[new_track_id] = deque(maxlen=self.window_size)
+                    self.tracker_queue[new_track_id].append(t)
             track_instances.append(t)
 
         return track_instances
